@@ -1,10 +1,11 @@
 """C05 - per-connection order, whole frames, gap-free sequence numbers."""
-from vlib.mgen import CLOSE, CONNECT, DISCONNECT, OPEN, PUB, READY, SETNAME, STEP, SUB, Profile
+from vlib.mgen import CLOSE, CONNECT, DISCONNECT, FAULT, OPEN, PUB, READY, SETNAME, STEP, SUB, Profile
 from vlib.simcheck import SimCheck
 
 RULE = ("Hypothesis-generated histories (profile 'ordering': bursts from several publishers, payload sizes 0/small/65535, "
         "acknowledged control traffic, unwritable subscribers producing FAILED_MESSAGE, clock jumps producing TIMING/TRAFFIC/"
-        "ACTIVE_CLIENTS on the same connections) run on the real manager over the in-memory network. Oracles: every byte stream "
+        "ACTIVE_CLIENTS on the same connections; and profile 'ordering-faults': the same while writes to other subscribers fail "
+        "in the middle of a fan-out - peer gone with EPIPE/ECONNRESET/delayed failure, injected failure at a byte offset) run on the real manager over the in-memory network. Oracles: every byte stream "
         "the manager wrote parses into whole frames with nothing left over after every round; msg_count is 1,2,3,... per connection "
         "over all frame kinds; per receiver the messages of one sender arrive in send order; any two receivers see their common "
         "messages in the same relative order. Non-trivial = a connection that received >=3 frames of >=2 kinds, or two receivers "
@@ -22,6 +23,23 @@ ORDERING = Profile(
 )
 
 
+# the same oracles while writes to *other* connections fail in the middle of a fan-out (peer gone, injected
+# failure at a byte offset): every surviving connection must still see whole frames, gap-free numbers, order
+ORDERING_FAULTS = Profile(
+    name="ordering-faults",
+    oracles={"order", "framing", "routing"},
+    weights={STEP: 8, PUB: 16, SUB: 6, CONNECT: 3, OPEN: 2, DISCONNECT: 1, CLOSE: 5, FAULT: 2, READY: 1},
+    types=[1234, 5000, 33, 8, 32, 0, 9999],
+    sizes=[0, 8, 64, 4096, 1, 7],
+    close_modes=["epipe", "reset", "first-ok", "silent"],
+    max_pending_pubs=10,
+    writable_all_bias=2,
+    p_logger=4,
+    dts=[0.0],
+    max_conns=8,
+)
+
+
 def nontrivial(w, res):
     for s in w.shapes:
         if s[0] == "pair-order":
@@ -33,9 +51,10 @@ def nontrivial(w, res):
 
 
 CHECK = SimCheck(
-    "C05", [ORDERING],
-    [{"timecode": False, "timing": True, "log": "error"}, {"timecode": True, "timing": True, "log": "info"},
-     {"timecode": False, "timing": False, "log": "silent"}],
+    "C05", [ORDERING, ORDERING, ORDERING_FAULTS],
+    {"ordering": [{"timecode": False, "timing": True, "log": "error"}, {"timecode": True, "timing": True, "log": "info"},
+                  {"timecode": False, "timing": False, "log": "silent"}],
+     "ordering-faults": [{"timecode": False, "timing": True, "log": "silent"}, {"timecode": True, "timing": False, "log": "silent"}]},
     RULE, ["per-sender order uses the harness' global publish counter, which increases in send order on each connection"],
     quick=(700, 60), thorough=(15000, 160), nontrivial=nontrivial,
 )
